@@ -78,8 +78,9 @@ for st in script:
         readline('secret')
         echo(True)
         out('\n')
-        if not st[1]:
+        if st[1] is False:
             out('Permission denied, please try again.\n')
+        # (st[1] == 'quiet': refused without a word - the next step usually asks again)
     elif k == 'denied':
         out('Permission denied (publickey,password).\n')
         sys.exit(255)
